@@ -49,6 +49,10 @@ type connDriver struct {
 	// header mode: the identifying header values are long and share a long prefix (bearer tokens of one issuer)
 	longNames bool
 	cancels   map[int]context.CancelFunc
+	next      http.Handler
+	// the second limiter's held requests
+	otherRelease      chan struct{}
+	otherIn, otherOut sync.WaitGroup
 }
 
 const connLongPrefix = "Bearer eyJhbGciOiJSUzI1NiIsInR5cCI6IkpXVCIsImtpZCI6InByb2QtMjAyNi0wOSJ9.eyJpc3MiOiJodHRwczovL2lkLmV4YW1wbGUuY29tIiwiYXVkIjoiYXBpIn0."
@@ -132,7 +136,44 @@ func newConnDriver(limit int64) *connDriver {
 		panic(err)
 	}
 	d.cl = cl
+	d.next = h
+	// another limiter of the same process (another route keyed on the same variable), busy with the same sources for the
+	// whole life of this driver: limiters are independent of each other
+	d.otherRelease = make(chan struct{})
+	other, err := connlimit.New(http.HandlerFunc(func(w http.ResponseWriter, req *http.Request) {
+		d.otherIn.Done()
+		<-d.otherRelease
+	}), ex, 1)
+	if err == nil {
+		for k := 0; k < 4; k++ {
+			src := sfmt("s%d", k)
+			req := httptest.NewRequest("GET", "http://other-route.test/", nil)
+			req.Header.Set("X-Src", src)
+			if d.longNames {
+				req.Header.Set("X-Src", connLongPrefix+src)
+			}
+			if d.byIP {
+				req.RemoteAddr = connPeer(src, 1000+k)
+			}
+			d.otherIn.Add(1)
+			d.otherOut.Add(1)
+			go func() {
+				defer d.otherOut.Done()
+				other.ServeHTTP(httptest.NewRecorder(), req)
+			}()
+		}
+		d.otherIn.Wait()
+	}
 	return d
+}
+
+// close lets the requests held by the other limiter go.
+func (d *connDriver) close() {
+	if d.otherRelease != nil {
+		close(d.otherRelease)
+		d.otherOut.Wait()
+		d.otherRelease = nil
+	}
 }
 
 // start launches request id for src and reports whether it was admitted (entered the handler).
@@ -218,6 +259,8 @@ func genConnScript(r *rand.Rand, nsrc, n int) []connStep {
 		case 8:
 			if r.IntN(2) == 0 {
 				s = append(s, connStep{"finish", src})
+			} else if r.IntN(3) == 0 {
+				s = append(s, connStep{"rewrap", src})
 			} else {
 				s = append(s, connStep{"cancel", src}) // the client of an in-flight request goes away; the handler is still running
 			}
@@ -231,6 +274,7 @@ func genConnScript(r *rand.Rand, nsrc, n int) []connStep {
 // runConnScript executes a script; returns the decisions of the start steps (per source, in order).
 func runConnScript(c *Ctx, limit int64, script []connStep, tag string) (decisions map[string][]bool, maxSeen map[string]int64, ok bool) {
 	d := newConnDriver(limit)
+	defer d.close()
 	inflight := map[string][]int{}
 	decisions = map[string][]bool{}
 	id := 0
@@ -267,6 +311,10 @@ func runConnScript(c *Ctx, limit int64, script []connStep, tag string) (decision
 					return nil, nil, false
 				}
 			}
+		case "rewrap":
+			// the chain is re-wired at run time (same handler): the requests in flight keep their slots
+			d.cl.Wrap(d.next)
+			c.Count("rewraps_with_requests_in_flight", 1)
 		case "cancel":
 			// the request keeps its slot for as long as its handler runs, whatever happened to its client
 			if l := inflight[st.Src]; len(l) > 0 {
@@ -640,6 +688,7 @@ func c04SlowReject(c *Ctx) {
 	c.Cases("slowreject", c.N(200, 4000), func(i int, r *rand.Rand) {
 		limit := int64(1 + r.IntN(4))
 		d := newConnDriver(limit)
+		defer d.close()
 		src := sfmt("s%d", r.IntN(3))
 		id := 0
 		var inflight []int
